@@ -970,6 +970,38 @@ example : (stdRule ⟨[(1, 1, none)], [], []⟩ [[(1, 2)], [(1, 2)]]
     ⟨[(1, {z := 6, implH := some 3}), (2, {z := 8, implH := some 1})], [(1, [(2, ⟨1, none⟩)]), (2, [(1, ⟨1, none⟩)])]⟩).map
     (fun m => m.atoms.map fun p => (p.2.charge, p.2.implH)) = some [(0, some 3), (1, some 2)] := by decide +kernel
 
+/-- **The rule part of a whole `standardize()` call keeps every hydrogen count right**: any sequence of rule applications
+    (`stdRules`: double rules, second shot, single rules, metal-organic rules — whatever matched, with whatever mappings) maps a
+    molecule whose atoms all carry the rules' counts to one whose atoms all do, and keeps the atom keys. -/
+theorem standardize_rules_keep_counts_right : ∀ (rs : List (RuleFix × List (List (Nat × Nat)))) (m m' : Mol),
+    stdRules rs m = some m' → (HConsistent m → HConsistent m') ∧ m'.ids = m.ids := by
+  intro rs
+  induction rs with
+  | nil =>
+    intro m m' h
+    simp only [stdRules, Option.some.injEq] at h
+    subst h
+    exact ⟨fun hc => hc, rfl⟩
+  | cons r tl ih =>
+    intro m m' h
+    obtain ⟨fx, maps⟩ := r
+    simp only [stdRules] at h
+    cases h1 : stdRule fx maps m with
+    | none => simp [h1] at h
+    | some m1 =>
+      simp only [h1] at h
+      obtain ⟨hc2, hid2⟩ := ih m1 m' h
+      obtain ⟨_, _, hid1, _, _⟩ := standardize_rule_recount fx maps m m1 h1
+      exact ⟨fun hc => hc2 (standardize_rule_keeps_counts_right fx maps m m1 h1 hc), hid2.trans hid1⟩
+
+/-- nitromethane drawn pentavalent `CN(=O)=O` and then charge-separated by a nitro rule (`atom_fix = {1: (1, None), 2: (-1, None)}`,
+    `bonds_fix = ((1, 2, 1),)`), followed by a rule that matches nothing: counts stay right, the second `N=O` mapping is skipped -/
+example : (stdRules [(⟨[(1, 1, none), (2, -1, none)], [(1, 2, 1)], []⟩, [[(1, 2), (2, 3), (3, 4)], [(1, 2), (2, 4), (3, 3)]]), (⟨[(1, 1, none)], [], []⟩, [])]
+    ⟨[(1, {z := 6, implH := some 3}), (2, {z := 7, implH := some 0}), (3, {z := 8, implH := some 0}), (4, {z := 8, implH := some 0})],
+     [(1, [(2, ⟨1, none⟩)]), (2, [(1, ⟨1, none⟩), (3, ⟨2, none⟩), (4, ⟨2, none⟩)]), (3, [(2, ⟨2, none⟩)]), (4, [(2, ⟨2, none⟩)])]⟩).map
+    (fun m => (m.atoms.map fun p => (p.2.charge, p.2.implH), (m.nbrs 2).map (·.2.order), decide (HConsistent m))) =
+    some ([(0, some 3), (1, some 0), (-1, some 0), (0, some 0)], [1, 1, 2], true) := by decide +kernel
+
 end StandardizeRule
 
 end ChythonModel.Props.C04
